@@ -21,6 +21,9 @@ def cases(tier, seed):
         for cands, bl in gen.profiles_exhaustive(3, nb, [F(w) for w in ws], ties=True):
             cs.append(("RD", cands, bl))
             cs.append(("BRD", cands, bl))
+            if nb == 2 and all(len(s) == 1 for r, _ in bl for s in r) and {c for r, _ in bl for s in r for c in s} == set(cands):
+                cs.append(("RD2", cands, bl))
+                cs.append(("BRD2", cands, bl))
     cs.append(("tiebreak", None, None))
     if tier == "thorough":
         rng = random.Random(seed)
@@ -97,8 +100,23 @@ def check_case(case):
     N = oracle.total(Wd)
     out["nontrivial"] = sum(1 for v in f.values() if v > 0) >= 2
     prof = gen.mk_profile(cands, bl)
+    seats = 2 if kind.endswith("2") else 1
+    kind = kind.rstrip("2")
     mod = RDm if kind == "RD" else BRDm
     cls = RandomDictator if kind == "RD" else BoostedRandomDictator
+
+    def first_seat_law(cs_, Wd_):
+        ff = oracle.fpv(cs_, Wd_)
+        NN = oracle.total(Wd_)
+        if NN == 0:
+            return None
+        sh = {c: ff[c] / NN for c in cs_}
+        if kind == "RD" or len(cs_) == 1:
+            return sh
+        c_ = len(cs_)
+        sq = {x: sh[x] ** 2 for x in cs_}
+        Z = sum(sq.values())
+        return {x: (1 - F(1, c_ - 1)) * sh[x] + F(1, c_ - 1) * sq[x] / Z for x in cs_}
 
     def run(choose):
         # scripted primitives
@@ -114,8 +132,9 @@ def check_case(case):
             return list(choose([(p, F(1, len(perms))) for p in perms]))
 
         def uniform(a, b):
-            # only compared with a threshold t = 1/(c-1): split at t
-            c = len(cands)
+            # only compared with a threshold t = 1/(c-1) for the c candidates still standing: split at t
+            c = len(cands) - nsteps[0]
+            nsteps[0] += 1
             t = F(1, c - 1) if c > 1 else F(1)
             return choose([(float(t) / 2, t), (min(0.999999, float(t) + (1 - float(t)) / 2), 1 - t)]) if t < 1 else float(t) / 2
 
@@ -128,22 +147,43 @@ def check_case(case):
         U.random.sample = sample
         if kind == "BRD":
             mod.np.random.choice = np_choice
+        nsteps[0] = 0
         try:
-            e = cls(prof, 1)
+            e = cls(prof, seats)
         finally:
             mod.random.choices, mod.random.sample, mod.random.uniform = saved[0], saved[1], saved[2]
             U.random.sample = saved[4]
             if kind == "BRD":
                 mod.np.random.choice = saved[3]
         el = [str(c) for g in e.get_elected() for c in g]
+        if seats == 2:
+            return tuple(el[:2]) if len(el) >= 2 else None
         return el[0] if el else None
     calls = []
+    nsteps = [0]
     try:
         law = explore(run)
     except Exception as ex:
         viol(f"{kind}:{type(ex).__name__}", repr(ex))
         return out
     out["evals"] += len(law)
+    if seats == 2:
+        exp2 = {}
+        l1 = first_seat_law(cands, Wd)
+        for a, pa in l1.items():
+            if pa == 0:
+                continue
+            rest = [c for c in cands if c != a]
+            l2 = first_seat_law(rest, oracle.scrub_W(Wd, {a}))
+            if l2 is None:
+                return out  # ballots exhausted before the second seat: C01's known finding
+            for b, pb in l2.items():
+                exp2[(a, b)] = exp2.get((a, b), F(0)) + pa * pb
+        tol2 = F(1, 10 ** 6) if kind == "BRD" else F(0)
+        keys = set(exp2) | {k for k in law if k is not None}
+        if law.get(None, 0) or any(abs(law.get(k, F(0)) - exp2.get(k, F(0))) > tol2 for k in keys):
+            viol(f"{kind}:two-seat-law", f"exact law of (seat 1, seat 2) {({str(k): str(v) for k, v in law.items()})} != closed form {({str(k): str(v) for k, v in exp2.items() if v})}")
+        return out
     share = {c: f[c] / N for c in cands}
     if kind == "RD":
         exp = share
